@@ -72,7 +72,8 @@ def run(ctx):
         p0 = ctx.rng.choice([None, None, 0.0, 1.0, 0.5, ctx.rng.random()])
         kw = ctx.rng.choice([{}, {}, {"xtol": 1e-10}, {"rtol": 1e-12}, {"maxiter": 200}, {"xtol": 1e-11, "rtol": 1e-13, "maxiter": 300},
                              {"xtol": 1e-2}, {"xtol": 2e-2, "rtol": 1e-3}, {"rtol": 1e-3},      # loose tolerances too: legal, and must not stick
-                             {"xtol": 1e-16}, {"xtol": 1e-20}, {"xtol": 1e-300, "rtol": 1e-14}, {"xtol": 0.0 + 5e-324}])   # absolute tolerances far below machine epsilon are legal for the solver
+                             {"xtol": 1e-16}, {"xtol": 1e-20}, {"xtol": 1e-300, "rtol": 1e-14}, {"xtol": 0.0 + 5e-324},    # absolute tolerances far below machine epsilon are legal for the solver
+                             {"maxiter": 3}, {"maxiter": 5}, {"maxiter": 8}])     # too few iterations: the solver may give up loudly, it may not hand back an unconverged limit
         cases.append((n, x, cl, alt, p0, kw))
     # large n with counts at and next to the ends; the arguments as fresh Python ints (distinct objects even when equal:
     # CPython shares small ints only up to 256), NumPy integer scalars, or counts computed from data
@@ -99,13 +100,15 @@ def run(ctx):
         n, x = int(n), int(x)
         ctx.case((n, x, cl, alt, p0, tuple(sorted(kw))), 0 < x < n, det if (kw or p0 is not None) else None)
         ctx.count("alt-" + alt); ctx.count("kwargs" if kw else "no-kwargs"); ctx.count("interior" if 0 < x < n else "boundary-x")
+        if r[0] != "ok" and kw.get("maxiter", 100) < 20 and r[1] == "RuntimeError":
+            ctx.count("solver-gave-up-loudly"); continue
         if r[0] != "ok":
             det.update({"issue": "call failed", "returned": r[1:]}); ctx.violation("oracle", det, site="binom_conf_interval"); continue
         lo, hi = float(r[1][0]), float(r[1][1])
         d = max(delta, 4 * F(kw.get("xtol", 0)) + 4 * F(kw.get("rtol", 0)))
         why = None
-        if not (0.0 <= lo <= hi <= 1.0):
-            why = "0 <= lower <= upper <= 1 fails"
+        if not (0.0 <= lo <= 1.0 and 0.0 <= hi <= 1.0 and lo <= hi + 2 * float(d if (kw.get("xtol", 0) > 1e-6 or kw.get("rtol", 0) > 1e-6) else 0)):
+            why = "0 <= lower <= upper <= 1 fails"      # (with loose caller-supplied tolerances the two roots may cross by that tolerance)
         elif cl >= 0.5 and not (lo <= x / n + 1e-12 + float(d) and x / n - 1e-12 - float(d) <= hi):      # d: slack allowed by the caller's own solver tolerances
             why = "lower <= x/n <= upper fails"
         else:
